@@ -1,4 +1,4 @@
 SPECIFICATION Spec
-CONSTANTS MaxFull = 3 MaxLen = 3
+CONSTANTS MaxFull = 3
 INVARIANTS FoldAgrees StoredAtIndex ScalarStored AliasResolves SpellingIgnored StartRequired ErrorIsFinal Bounded
 CHECK_DEADLOCK FALSE
